@@ -1326,7 +1326,13 @@ class Module(ABC):
                 # `set_param` is of shape `(num_params,)`
                 # We need to unsqueeze `set_param` to make it `(num_params, 1)` for the
                 # `.set()` to work. This is done with `[:, None]`.
-                params[key] = params[key].at[inds].set(set_param[:, None])
+                #
+                # If parameters are shared by groups of different sizes, `inds` is
+                # padded with `-1` (see `make_trainable()`). A negative index would wrap
+                # around and overwrite the last element, so the padding is pointed out
+                # of bounds, where `.set()` drops it.
+                inds = jnp.where(inds < 0, len(params[key]), inds)
+                params[key] = params[key].at[inds].set(set_param[:, None], mode="drop")
 
         # Compute conductance params and add them to the params dictionary.
         params["axial_conductances"] = self.base._compute_axial_conductances(
@@ -1374,8 +1380,10 @@ class Module(ABC):
                 # `inds` is of shape `(num_params, num_comps_per_param)`.
                 # `set_param` is of shape `(num_params,)`
                 # We need to unsqueeze `set_param` to make it `(num_params, 1)` for the
-                # `.set()` to work. This is done with `[:, None]`.
-                states[key] = states[key].at[inds].set(set_param[:, None])
+                # `.set()` to work. This is done with `[:, None]`. As in
+                # `get_all_parameters()`, the `-1` padding must not wrap around.
+                inds = jnp.where(inds < 0, len(states[key]), inds)
+                states[key] = states[key].at[inds].set(set_param[:, None], mode="drop")
 
         # Add to the states the initial current through every channel.
         states, _ = self.base._channel_currents(
